@@ -7,7 +7,9 @@ Fill == {"zero", "ones", "count"}
 KeyClasses == { [salt |-> s, body |-> b, perms |-> p] : s \in Fill, b \in Fill, p \in {0, 1, 2, 4, 8, 16, 32, 64, 128, 255} }
 (* malformed key strings: wrong length, or one invalid character at some position *)
 BadLens  == {0, 1, 31, 33, 64}
-BadChars == {"=", "+", "/", " ", "high"}
+(* every byte value that is not one of the 64 URL-safe base64 characters *)
+Valid == (65..90) \cup (97..122) \cup (48..57) \cup {45, 95}
+BadChars == (0..255) \ Valid
 Positions == {0, 1, 15, 30, 31}
 BadKeys == { [kind |-> "len", n |-> n] : n \in BadLens } \cup { [kind |-> "char", ch |-> c, pos |-> p] : c \in BadChars, p \in Positions }
 (* malformed license strings, per version suffix *)
